@@ -218,6 +218,9 @@ func PrefixAll(p *core.Prog, r *core.Report) {
 			if _, isConst := core.ConstString(info, o); isConst {
 				continue
 			}
+			if isNumberText(info, o) {
+				continue // the decimal text of an integer has no line break
+			}
 			if !isPrefixed(o) {
 				bad = o
 			}
@@ -267,6 +270,35 @@ func DBLinkAgree(p *core.Prog, r *core.Report) {
 			}
 		}
 	}
+	if sep == "" {
+		// the same line written as a concatenation: X.Key + SEP + X.Value + ...
+		ast.Inspect(w.Body, func(n ast.Node) bool {
+			be, ok := n.(*ast.BinaryExpr)
+			if !ok || be.Op != token.ADD || sep != "" {
+				return true
+			}
+			var ops []ast.Expr
+			var flat func(e ast.Expr)
+			flat = func(e ast.Expr) {
+				if b, ok := ast.Unparen(e).(*ast.BinaryExpr); ok && b.Op == token.ADD {
+					flat(b.X)
+					flat(b.Y)
+					return
+				}
+				ops = append(ops, ast.Unparen(e))
+			}
+			flat(be)
+			for i := 0; i+2 < len(ops); i++ {
+				k, okk := ops[i].(*ast.SelectorExpr)
+				v, okv := ops[i+2].(*ast.SelectorExpr)
+				f, okf := core.ConstString(info, ops[i+1])
+				if okk && okv && okf && k.Sel.Name == "Key" && v.Sel.Name == "Value" {
+					sep = f
+				}
+			}
+			return true
+		})
+	}
 	if sep == "" || sep[0] != ':' {
 		r.Und("DBLINK-AGREE", "seqio.DBLINK", p.Pos(w.Pos()), "cannot find the writer's `key<sep>value` format")
 		return
@@ -276,7 +308,34 @@ func DBLinkAgree(p *core.Prog, r *core.Report) {
 	var cut int64 = -1
 	var iObj types.Object
 	var sObj types.Object
-	ast.Inspect(rd.Body, func(n ast.Node) bool {
+	// the cutting may sit in the parser itself or in a helper of the package it calls
+	bodies := []*ast.BlockStmt{rd.Body}
+	for _, c := range core.Calls(rd.Body) {
+		if fn := core.Callee(info, c); fn != nil && fn.Pkg() != nil && fn.Pkg().Path() == core.PkgSeqio {
+			if hd := p.FuncDecl(core.PkgSeqio, fn.Name()); hd != nil && hd.Body != nil && hd.Recv == nil && hd != rd {
+				bodies = append(bodies, hd.Body)
+			}
+		}
+	}
+	readerBody := rd.Body
+	for _, b := range bodies {
+		found := false
+		ast.Inspect(b, func(n ast.Node) bool {
+			if se, ok := n.(*ast.SliceExpr); ok && se.Low != nil && se.High == nil {
+				if be, ok := ast.Unparen(se.Low).(*ast.BinaryExpr); ok && be.Op == token.ADD {
+					if _, ok := core.ConstInt(info, be.Y); ok {
+						found = true
+					}
+				}
+			}
+			return !found
+		})
+		if found {
+			readerBody = b
+			break
+		}
+	}
+	ast.Inspect(readerBody, func(n ast.Node) bool {
 		se, ok := n.(*ast.SliceExpr)
 		if !ok || se.Low == nil || se.High != nil {
 			return true
@@ -297,7 +356,7 @@ func DBLinkAgree(p *core.Prog, r *core.Report) {
 	// guard: if len(s) < i+T { return error }
 	var thr int64 = -1
 	var guardPos token.Pos
-	ast.Inspect(rd.Body, func(n ast.Node) bool {
+	ast.Inspect(readerBody, func(n ast.Node) bool {
 		is, ok := n.(*ast.IfStmt)
 		if !ok || len(is.Body.List) == 0 {
 			return true
@@ -340,4 +399,10 @@ func DBLinkAgree(p *core.Prog, r *core.Report) {
 	default:
 		r.Ok("DBLINK-AGREE", "seqio.DBLINK", p.Pos(guardPos), fmt.Sprintf("separator %q, value at s[i+%d:], rejected only when len(s) < i+%d", sep, K, K))
 	}
+}
+
+// isNumberText: strconv.Itoa / FormatInt / FormatUint of something: digits and a sign.
+func isNumberText(info *types.Info, e ast.Expr) bool {
+	c, ok := ast.Unparen(e).(*ast.CallExpr)
+	return ok && core.IsCallTo(info, c, "strconv.Itoa", "strconv.FormatInt", "strconv.FormatUint")
 }
